@@ -873,6 +873,7 @@ def describe(prop):
         "assumptions": [
             "the snapshot walks __dict__ of every object reachable from the model (partials, dicts, lists), floats by hex, arrays by digest; TransformedModel._sample is a cache allowed to go None -> array once",
             "unseeded operations may depend on the global RNG state only, which the simulator pins per step (slot-local), so repeatability and projection equivalence are decidable",
+            "no array reachable from a model may share memory with an array passed to an evaluation; warnings filters, numpy error state / print options and the working directory are compared after every operation; an evaluation that was given a seed or involves no sampling must leave NumPy's global legacy RNG untouched (marginal_icdf, And/Or contours and the quantile plot are exempt: Monte-Carlo inside, no seed parameter)",
         ],
-        "probes": ["fit-between-evaluations", "evaluation-repeated-later", "caller-edited-filled-fit-description", "deep-copy-checked-after-a-fit"],
+        "probes": ["fit-between-evaluations", "evaluation-repeated-later", "caller-edited-filled-fit-description", "deep-copy-checked-after-a-fit", "caller-arrays-checked-for-aliasing"],
     }
